@@ -3,4 +3,4 @@ Require Coq.extraction.Extraction.
 Require Import Coq.extraction.ExtrOcamlBasic.
 From TV Require Import Model.Entry.
 Extraction Language OCaml.
-Extraction "model.ml" dispatch.
+Extraction "model.ml" dispatch dispatch2.
